@@ -326,8 +326,18 @@ def explore(net, harness, *, extra_vars=(), extra_constraints=(), cube=(), timeb
             res["queries"]["class_sat"] += 1
             cex_rules = net.rules_of_model(m2)
             cex_hist = {str(k): (m2.eval(k, model_completion=True).as_long() if z3.is_int(k) else bool(z3.is_true(m2.eval(k, model_completion=True)))) for k in extra_vars}
+            failing_at = []
+            try:
+                from . import specs as _specs
+                for lbl, f in (_specs.LAST_PARTS.get("parts") or []):
+                    if not isinstance(f, bool) and z3.is_false(m2.eval(f, model_completion=True)):
+                        failing_at.append(lbl)
+                        if len(failing_at) >= 4:
+                            break
+            except Exception:
+                pass
             res["violations"].append({"rules": cex_rules, "hist": cex_hist, "info": info, "kind": "class",
-                                      "representative": rules})
+                                      "representative": rules, "class_failing": failing_at})
         elif r2 == z3.unsat:
             res["queries"]["class_unsat"] += 1
         else:
